@@ -6,6 +6,9 @@
 package slog
 
 import (
+	"fmt"
+	"sort"
+	"strings"
 	"time"
 
 	"github.com/hedzr/logg/slog/internal/times"
@@ -241,4 +244,79 @@ func VerifChildren(e *Entry) map[string]*Entry {
 		m[k] = v
 	}
 	return m
+}
+
+// VerifRegistryDump renders the seven level tables canonically (for "unchanged" comparisons).
+func VerifRegistryDump() string {
+	var sb strings.Builder
+	fmt.Fprintf(&sb, "all=%v\n", allLevels)
+	dumpMap := func(name string, keys []string, get func(string) string) {
+		sort.Strings(keys)
+		fmt.Fprintf(&sb, "%s:", name)
+		for _, k := range keys {
+			fmt.Fprintf(&sb, " %s=%s", k, get(k))
+		}
+		sb.WriteByte('\n')
+	}
+	{
+		var ks []string
+		m := map[string]string{}
+		for k, v := range levelToString {
+			s := fmt.Sprint(int(k))
+			ks = append(ks, s)
+			m[s] = fmt.Sprintf("%q", v)
+		}
+		dumpMap("l2s", ks, func(k string) string { return m[k] })
+	}
+	{
+		var ks []string
+		m := map[string]string{}
+		for k, v := range stringToLevel {
+			s := fmt.Sprintf("%q", k)
+			ks = append(ks, s)
+			m[s] = fmt.Sprint(int(v))
+		}
+		dumpMap("s2l", ks, func(k string) string { return m[k] })
+	}
+	for n := 0; n < MaxLengthShortTag; n++ {
+		var ks []string
+		m := map[string]string{}
+		for k, v := range shortTagMap[n] {
+			s := fmt.Sprint(int(k))
+			ks = append(ks, s)
+			m[s] = fmt.Sprintf("%q", v)
+		}
+		dumpMap(fmt.Sprintf("tags%d", n), ks, func(k string) string { return m[k] })
+	}
+	{
+		var ks []string
+		m := map[string]string{}
+		for k, v := range mLevelIsEnabledAs {
+			s := fmt.Sprint(int(k))
+			ks = append(ks, s)
+			m[s] = fmt.Sprint(int(v))
+		}
+		dumpMap("as", ks, func(k string) string { return m[k] })
+	}
+	{
+		var ks []string
+		m := map[string]string{}
+		for k, v := range mLevelUseErrorDevice {
+			s := fmt.Sprint(int(k))
+			ks = append(ks, s)
+			m[s] = fmt.Sprint(v)
+		}
+		dumpMap("errdev", ks, func(k string) string { return m[k] })
+	}
+	{
+		var ks []string
+		m := map[string]string{}
+		for k, v := range mLevelColors {
+			s := fmt.Sprint(int(k))
+			ks = append(ks, s)
+			m[s] = fmt.Sprint(v)
+		}
+		dumpMap("colors", ks, func(k string) string { return m[k] })
+	}
+	return sb.String()
 }
